@@ -1385,8 +1385,8 @@ class Normalizer:
                     return t
             if m == 'copy' and not args:
                 return recv                               # N2
-            if m == 'astype' and len(args) == 1 and args[0] == ('g', 'float'):
-                return recv                               # N2 (builtin float only)
+            if m == 'astype' and len(args) == 1 and args[0] in (('g', 'float'), ('mod', 'numpy.float64'), ('mod', 'numpy.double')):
+                return recv                               # N2 (float64 only: a copy of the same values for float input)
             if m in ('conj', 'conjugate') and not args:
                 return recv                               # N3 (real dtype)
             if m == 'transpose' and not args:
